@@ -99,7 +99,8 @@ def havoc_symbols(ob):
             _consts(p, pc, set(), budget=3000)
             if bools & set(pc):
                 cs.update(pc)
-    return {n for n in cs if n.startswith('havoc_')}
+    # (a lambda evaluated twice is two different opaque closures in the encoding: equally inconclusive)
+    return {n for n in cs if n.startswith('havoc_') or n.startswith('closure!')}
 
 
 def discharge(ob, extra=(), timeout_ms=None, use_cvc5=True):
